@@ -511,7 +511,10 @@ def ldu(load_v, name):
   cases = _fm.return_cases(ve.node, _dir_atom)
   f_none = _fm.FALSE
   for c, v in cases:
-    if v is None or (isinstance(v, ast.Constant) and v.value is None):
+    # not emitted: the statement is deleted (None) or replaced by `pass`
+    if v is None or (isinstance(v, ast.Constant) and v.value is None) or (
+        isinstance(v, ast.Call) and core.dotted(v.func) == 'ast.Pass' and not v.args
+        and not v.keywords):
       f_none = f_none | c
   missing = []
   anyd = _fm.FALSE
@@ -527,8 +530,9 @@ def ldu(load_v, name):
   o2, cex = implies(f_none, anyd)
   rep.check(not missing and o2 and len(dfuncs) >= 2, 'OPTS',
             '%s:directive-call-removed' % ve.site,
-            'a statement is removed from the generated code exactly when it '
-            'calls a directive function (%s)' % ', '.join(dfuncs),
+            'a statement is dropped from the generated code (deleted or '
+            'replaced by pass) exactly when it calls a directive function (%s)' %
+            ', '.join(dfuncs),
             {'not_removed': missing, 'removed_without_directive': cex},
             line=ve.node.lineno)
   # rebuilt loop nodes keep the annotations
